@@ -29,8 +29,12 @@ def strip(n):
 
 
 class Ctx:
-    def __init__(self, enums, locals_, params):
+    def __init__(self, enums, locals_, params, funcs=None, subst=None):
         self.enums, self.locals, self.params = enums, locals_, params      # locals: name -> 'bool' | 'int'
+        self.funcs = funcs or {}          # functions of the translation unit (for small helpers, rendered in place)
+        self.subst = subst or {}          # name -> (text, kind): parameters of a helper being rendered, locals defined by an expression
+        self.st = "St"                    # the state type the statements work on
+        self.calls = False                # statements that are calls are rendered (reporter_finish_test) rather than refused
 
 
 def expr(cx, n):
@@ -49,6 +53,8 @@ def expr(cx, n):
         if d["kind"] == "EnumConstantDecl":
             if d["name"] not in cx.enums: raise Unsupported("enumerator " + d["name"])
             return f"({cx.enums[d['name']]} : Int)", "int"
+        if d["name"] in cx.subst:
+            return cx.subst[d["name"]]
         if d["name"] in cx.locals:
             return ("result" if d["name"] == cx.locals.get("__loopvar") else f"s.{d['name']}"), cx.locals[d["name"]]
         if d["name"] in cx.params:
@@ -85,6 +91,19 @@ def expr(cx, n):
         tc, kc = expr(cx, c); ta, ka = expr(cx, a); tb, kb = expr(cx, b)
         if ka != kb: raise Unsupported("?: with branches of different kinds")
         return f"(if {as_bool(tc, kc)} then {ta} else {tb})", ka
+    if k == "CallExpr":
+        # a small helper of the same file whose body is one return: rendered in place, its parameters replaced by the arguments
+        cn = strip(n["inner"][0]).get("referencedDecl", {}).get("name")
+        h = cx.funcs.get(cn)
+        if h is None: raise Unsupported(f"call of {cn}")
+        body = next(c for c in h["inner"] if c.get("kind") == "CompoundStmt").get("inner", [])
+        params = [p for p in h.get("inner", []) if p.get("kind") == "ParmVarDecl"]
+        if len(body) != 1 or body[0].get("kind") != "ReturnStmt" or len(params) != len(n["inner"]) - 1:
+            raise Unsupported(f"call of {cn}, which is more than one return")
+        sub = dict(cx.subst)
+        for p_, a_ in zip(params, n["inner"][1:]):
+            sub[p_["name"]] = expr(cx, a_)
+        return expr(Ctx(cx.enums, cx.locals, cx.params, cx.funcs, sub), body[0]["inner"][0])
     raise Unsupported(f"expression {k} {n.get('opcode', '')}")
 
 
@@ -107,26 +126,69 @@ def stmt(cx, n):
     if k == "CompoundStmt":
         return seq(cx, n.get("inner", []))
     if k == "NullStmt":
-        return "(fun s => (s, none))"
+        return f"(fun (s : {cx.st}) => goOn s)"
     if k == "ReturnStmt":
         t, kd = expr(cx, n["inner"][0])
-        return f"(fun s => (s, some {as_int(t, kd)}))"
+        return f"(fun (s : {cx.st}) => ret s {as_int(t, kd)})"
+    if k == "BreakStmt":
+        return f"(fun (s : {cx.st}) => leave s)"      # leaves the loop (a `break` that ends a switch case never gets here)
+    if k == "SwitchStmt":
+        scrut, sk = expr(cx, n["inner"][0])
+        comp = n["inner"][1]
+        if comp.get("kind") != "CompoundStmt": raise Unsupported("switch without a block")
+        # cases: labels (None = default) and the statements up to the break that ends them
+        cases, labels, cur = [], [], None
+        def open_case(c):
+            nonlocal labels
+            while c.get("kind") in ("CaseStmt", "DefaultStmt"):
+                if c["kind"] == "CaseStmt":
+                    lab = c["inner"][0]
+                    while lab.get("kind") == "ConstantExpr": lab = lab["inner"][0]
+                    t, kd = expr(cx, lab)
+                    labels.append(as_int(t, kd)); c = c["inner"][-1]
+                else:
+                    labels.append(None); c = c["inner"][-1]
+            return c
+        for item in comp.get("inner", []):
+            if item.get("kind") in ("CaseStmt", "DefaultStmt"):
+                if cur is not None and cur["open"]:
+                    raise Unsupported("a switch case that falls through into the next one")
+                labels = []
+                first = open_case(item)
+                cur = {"labels": labels, "stmts": [], "open": True}
+                cases.append(cur)
+                item = first
+            if cur is None: raise Unsupported("statement before the first case")
+            if not cur["open"]: raise Unsupported("statement after the end of a case")
+            if item.get("kind") == "BreakStmt": cur["open"] = False
+            elif item.get("kind") == "ReturnStmt": cur["stmts"].append(item); cur["open"] = False
+            elif item.get("kind") == "NullStmt": pass
+            else: cur["stmts"].append(item)
+        if cases and cases[-1]["open"]: cases[-1]["open"] = False      # the last case ends with the switch
+        default = next((c for c in cases if None in c["labels"]), None)
+        t = seq(cx, default["stmts"]) if default else f"(fun (s : {cx.st}) => goOn s)"
+        for c in reversed(cases):
+            labs = [l for l in c["labels"] if l is not None]
+            if not labs: continue
+            cond = " || ".join(f"({as_int(scrut, sk)} == {l})" for l in labs)
+            t = f"(fun (s : {cx.st}) => if {cond} then {seq(cx, c['stmts'])} s else {t} s)"
+        return t
     if k == "IfStmt":
         parts = n["inner"]
         c, kc = expr(cx, parts[0])
         th = stmt(cx, parts[1])
-        el = stmt(cx, parts[2]) if n.get("hasElse") else "(fun s => (s, none))"
-        return f"(fun s => if {as_bool(c, kc)} then {th} s else {el} s)"
+        el = stmt(cx, parts[2]) if n.get("hasElse") else f"(fun (s : {cx.st}) => goOn s)"
+        return f"(fun (s : {cx.st}) => if {as_bool(c, kc)} then {th} s else {el} s)"
     if k == "UnaryOperator" and n["opcode"] in ("++",):
         tgt = strip(n["inner"][0])
         if tgt.get("kind") == "MemberExpr" and tgt["name"] in COUNTERS and strip(tgt["inner"][0]).get("referencedDecl", {}).get("name") == "reporter":
-            return f"(fun s => ({{ s with {tgt['name']} := s.{tgt['name']} + 1 }}, none))"
+            return f"(fun (s : {cx.st}) => goOn {{ s with {tgt['name']} := s.{tgt['name']} + 1 }})"
         raise Unsupported("increment of something that is not a counter of the reporter")
     if k == "CompoundAssignOperator" and n["opcode"] == "+=":
         tgt = strip(n["inner"][0])
         lit = strip(n["inner"][1])
         if tgt.get("kind") == "MemberExpr" and tgt["name"] in COUNTERS and lit.get("kind") == "IntegerLiteral":
-            return f"(fun s => ({{ s with {tgt['name']} := s.{tgt['name']} + {lit['value']} }}, none))"
+            return f"(fun (s : {cx.st}) => goOn {{ s with {tgt['name']} := s.{tgt['name']} + {lit['value']} }})"
         raise Unsupported("compound assignment")
     if k == "BinaryOperator" and n["opcode"] == "=":
         tgt = strip(n["inner"][0])
@@ -134,29 +196,62 @@ def stmt(cx, n):
             nm = tgt["referencedDecl"]["name"]
             t, kd = expr(cx, n["inner"][1])
             v = as_bool(t, kd) if cx.locals[nm] == "bool" else as_int(t, kd)
-            return f"(fun s => ({{ s with {nm} := {v} }}, none))"
+            return f"(fun (s : {cx.st}) => goOn {{ s with {nm} := {v} }})"
         if tgt.get("kind") == "MemberExpr" and tgt["name"] in COUNTERS:
             rhs = strip(n["inner"][1])
             # reporter->x = reporter->x + 1
             if rhs.get("kind") == "BinaryOperator" and rhs["opcode"] == "+":
                 a, b = strip(rhs["inner"][0]), strip(rhs["inner"][1])
                 if a.get("kind") == "MemberExpr" and a["name"] == tgt["name"] and b.get("kind") == "IntegerLiteral":
-                    return f"(fun s => ({{ s with {tgt['name']} := s.{tgt['name']} + {b['value']} }}, none))"
+                    return f"(fun (s : {cx.st}) => goOn {{ s with {tgt['name']} := s.{tgt['name']} + {b['value']} }})"
         raise Unsupported("assignment")
     if k in ("ContinueStmt",):
-        return "(fun s => (s, none))" if cx.locals.get("__tail") else (_ for _ in ()).throw(Unsupported("continue in the middle of the loop body"))
+        raise Unsupported("continue in the loop body")
+    if k == "DeclStmt" and cx.calls:
+        out = []
+        for v in n["inner"]:
+            if v.get("kind") != "VarDecl" or v["name"] not in cx.locals or not v.get("inner"): continue
+            t, kd = expr(cx, v["inner"][0])
+            val = as_bool(t, kd) if cx.locals[v["name"]] == "bool" else as_int(t, kd)
+            out.append(f"(fun (s : {cx.st}) => goOn {{ s with {v['name']} := {val} }})")
+        if not out: return f"(fun (s : {cx.st}) => goOn s)"
+        t = out[-1]
+        for o in reversed(out[:-1]): t = f"(fun (s : {cx.st}) => andThen ({o} s) {t})"
+        return t
+    if k == "CallExpr" and cx.calls:
+        callee = strip(n["inner"][0])
+        if callee.get("kind") == "UnaryOperator" and callee.get("opcode") == "*": callee = strip(callee["inner"][0])
+        if callee.get("kind") == "MemberExpr":
+            if callee["name"] == "show_skip": return f"(fun (s : {cx.st}) => goOn {{ s with skipShown := true }})"
+            if callee["name"] == "show_incomplete": return f"(fun (s : {cx.st}) => goOn {{ s with incompleteShown := true }})"
+            raise Unsupported("call through " + callee.get("name", "?"))
+        cn = callee.get("referencedDecl", {}).get("name")
+        if cn in ("memset", "pop_breadcrumb", "free", "fflush", "__builtin_va_start", "__builtin_va_end", "__builtin_va_copy"):
+            return f"(fun (s : {cx.st}) => goOn s)"
+        h = cx.funcs.get(cn)
+        if h is None: raise Unsupported(f"call of {cn}")
+        # a helper of the same file: its statements in place, value parameters replaced by the arguments
+        params = [p_ for p_ in h.get("inner", []) if p_.get("kind") == "ParmVarDecl"]
+        sub = dict(cx.subst)
+        for p_, a_ in zip(params, n["inner"][1:]):
+            try: sub[p_["name"]] = expr(cx, a_)
+            except Unsupported: pass
+        c2 = Ctx(cx.enums, cx.locals, cx.params, cx.funcs, sub); c2.st, c2.calls = cx.st, cx.calls
+        hb = next(c for c in h["inner"] if c.get("kind") == "CompoundStmt")
+        if any(x.get("kind") == "ReturnStmt" for x in hb.get("inner", [])): raise Unsupported(f"helper {cn} returns in the middle")
+        return seq(c2, hb.get("inner", []))
     raise Unsupported("statement " + str(k))
 
 
 def seq(cx, items):
     if not items:
-        return "(fun s => (s, none))"
+        return f"(fun (s : {cx.st}) => goOn s)"
     head, rest = items[0], items[1:]
-    if head.get("kind") == "DeclStmt":
+    if head.get("kind") == "DeclStmt" and not cx.calls:
         raise Unsupported("declaration inside the loop")
     if not rest:
         return stmt(cx, head)
-    return f"(fun s => andThen ({stmt(cx, head)} s) {seq(cx, rest)})"
+    return f"(fun (s : {cx.st}) => andThen ({stmt(cx, head)} s) {seq(cx, rest)})"
 
 
 def generate():
@@ -196,33 +291,69 @@ def generate():
     if i >= len(body) or body[i].get("kind") not in ("WhileStmt", "ForStmt"):
         raise Unsupported("read_reporter_results: no loop after the declarations")
     loop = body[i]
-    parts = loop["inner"]
-    cond, lbody = (parts[0], parts[1]) if loop["kind"] == "WhileStmt" else (None, None)
-    if cond is None: raise Unsupported("a for loop")
-    # the condition contains the receive: (result = receive_cgreen_message(...)) <op> <value>
+    funcs = {n["name"]: n for n in top if n.get("kind") == "FunctionDecl" and any(c.get("kind") == "CompoundStmt" for c in n.get("inner", []) or [])}
+
+    def is_receive(n):
+        n = strip(n)
+        return n.get("kind") == "CallExpr" and strip(n["inner"][0]).get("referencedDecl", {}).get("name") == "receive_cgreen_message"
+
     loopvar = None
-    def find_assign(n):
-        nonlocal loopvar
-        if isinstance(n, dict):
-            if n.get("kind") == "BinaryOperator" and n.get("opcode") == "=":
-                l, r = strip(n["inner"][0]), strip(n["inner"][1])
-                if r.get("kind") == "CallExpr" and strip(r["inner"][0]).get("referencedDecl", {}).get("name") == "receive_cgreen_message" and l.get("kind") == "DeclRefExpr":
-                    loopvar = l["referencedDecl"]["name"]; n["__isrecv"] = True
-            for c in n.get("inner", []) or []: find_assign(c)
-    find_assign(cond)
-    if loopvar is None: raise Unsupported("the loop condition does not receive into a local")
-    locals_["__loopvar"] = loopvar
-    cx = Ctx(enums, locals_, {})
-    def cond_expr(n):
-        m = strip(n)
-        if m.get("__isrecv"): return "result", "int"
-        if m.get("kind") == "BinaryOperator" and m["opcode"] in ("==", "!=", "<", ">", "<=", ">="):
-            ta, ka = cond_expr(m["inner"][0]); tb, kb = cond_expr(m["inner"][1])
-            op = m["opcode"]
-            if op in ("==", "!="): return f"({as_int(ta, ka)} {op} {as_int(tb, kb)})", "bool"
-            return f"(decide ({as_int(ta, ka)} {dict(zip(['<', '>', '<=', '>='], ['<', '>', '≤', '≥']))[op]} {as_int(tb, kb)}))", "bool"
-        return expr(cx, n)
-    ct, ck = cond_expr(cond)
+    if loop["kind"] == "WhileStmt":
+        cond, lbody = loop["inner"][0], loop["inner"][1]
+    else:
+        parts = loop["inner"]      # init, (condition variable), condition, increment, body - absent ones are empty objects
+        if any(p_ for p_ in parts[:-1] if p_ and p_.get("kind")):
+            raise Unsupported("a for loop with an initialiser, a condition or an increment")
+        cond, lbody = None, parts[-1]
+    always = cond is not None and strip(cond).get("kind") in ("IntegerLiteral", "CXXBoolLiteralExpr") and str(strip(cond).get("value")) in ("1", "True", "true")
+    if cond is None or always:
+        # for (;;) { [const] int result = receive_cgreen_message(...); if (<stop condition>) break; ... }
+        items = list(lbody.get("inner", [])) if lbody.get("kind") == "CompoundStmt" else [lbody]
+        if len(items) < 2: raise Unsupported("an endless loop without a receive and a way out")
+        first = items[0]
+        if first.get("kind") == "DeclStmt" and len(first["inner"]) == 1 and first["inner"][0].get("inner") and is_receive(first["inner"][0]["inner"][0]):
+            loopvar = first["inner"][0]["name"]; locals_[loopvar] = "int"
+        elif first.get("kind") == "BinaryOperator" and first.get("opcode") == "=" and is_receive(first["inner"][1]) and strip(first["inner"][0]).get("kind") == "DeclRefExpr":
+            loopvar = strip(first["inner"][0])["referencedDecl"]["name"]
+        else:
+            raise Unsupported("an endless loop that does not start by receiving a record")
+        second = items[1]
+        if second.get("kind") != "IfStmt" or second.get("hasElse"):
+            raise Unsupported("an endless loop whose second statement is not `if (...) break;`")
+        th = second["inner"][1]
+        th_items = th.get("inner", []) if th.get("kind") == "CompoundStmt" else [th]
+        if len(th_items) != 1 or th_items[0].get("kind") != "BreakStmt":
+            raise Unsupported("an endless loop whose second statement is not `if (...) break;`")
+        stop_cond = second["inner"][0]
+        lbody = {"kind": "CompoundStmt", "inner": items[2:]}
+        locals_["__loopvar"] = loopvar
+        cx = Ctx(enums, locals_, {}, funcs)
+        st, sk = expr(cx, stop_cond)
+        ct, ck = f"(!{as_bool(st, sk)})", "bool"
+    else:
+        # while ((result = receive_cgreen_message(...)) <op> <value>)
+        def find_assign(n):
+            nonlocal loopvar
+            if isinstance(n, dict):
+                if n.get("kind") == "BinaryOperator" and n.get("opcode") == "=":
+                    l, r = strip(n["inner"][0]), strip(n["inner"][1])
+                    if is_receive(r) and l.get("kind") == "DeclRefExpr":
+                        loopvar = l["referencedDecl"]["name"]; n["__isrecv"] = True
+                for c in n.get("inner", []) or []: find_assign(c)
+        find_assign(cond)
+        if loopvar is None: raise Unsupported("the loop condition does not receive into a local")
+        locals_["__loopvar"] = loopvar
+        cx = Ctx(enums, locals_, {}, funcs)
+        def cond_expr(n):
+            m = strip(n)
+            if m.get("__isrecv"): return "result", "int"
+            if m.get("kind") == "BinaryOperator" and m["opcode"] in ("==", "!=", "<", ">", "<=", ">="):
+                ta, ka = cond_expr(m["inner"][0]); tb, kb = cond_expr(m["inner"][1])
+                op = m["opcode"]
+                if op in ("==", "!="): return f"({as_int(ta, ka)} {op} {as_int(tb, kb)})", "bool"
+                return f"(decide ({as_int(ta, ka)} {dict(zip(['<', '>', '<=', '>='], ['<', '>', '≤', '≥']))[op]} {as_int(tb, kb)}))", "bool"
+            return expr(cx, n)
+        ct, ck = cond_expr(cond)
     state_locals = [(n, k) for n, k in locals_.items() if n not in ("__loopvar", loopvar)]
     after = [s for s in body[i + 1:]]
     if len(after) != 1 or after[0].get("kind") != "ReturnStmt": raise Unsupported("what follows the loop is not a single return")
@@ -232,9 +363,11 @@ def generate():
     for c in COUNTERS: L.append(f"  {c} : Nat")
     for n, k in state_locals: L.append(f"  {n} : {'Bool' if k == 'bool' else 'Int'}")
     L.append("  deriving DecidableEq, Repr\n")
-    L.append("def andThen (r : St × Option Int) (k : St → St × Option Int) : St × Option Int :=\n  match r.2 with | some v => (r.1, some v) | none => k r.1\n")
+    L.append("/-- what a statement ends with: `none` goes on, `some none` leaves the loop, `some (some v)` returns `v` -/\nabbrev Out := Option (Option Int)\n")
+    L.append("def goOn {σ : Type} (s : σ) : σ × Out := (s, none)\ndef leave {σ : Type} (s : σ) : σ × Out := (s, some none)\ndef ret {σ : Type} (s : σ) (v : Int) : σ × Out := (s, some (some v))\n")
+    L.append("def andThen {σ : Type} (r : σ × Out) (k : σ → σ × Out) : σ × Out :=\n  match r.2 with | some v => (r.1, some v) | none => k r.1\n")
     L.append(f"/-- the loop goes on while this holds of what `receive_cgreen_message` returned -/\ndef cond (result : Int) : Bool := {as_bool(ct, ck)}\n")
-    L.append(f"/-- the loop body for one record -/\ndef body (result : Int) : St → St × Option Int :=\n  {stmt(cx, lbody)}\n")
+    L.append(f"/-- the loop body for one record -/\ndef body (result : Int) : St → St × Out :=\n  {stmt(cx, lbody)}\n")
     L.append(f"/-- what is returned when the loop ends without a return -/\ndef after (s : St) : Int := {as_int(rt, rk)}\n")
     inits_txt = " ".join(f"({n} := {('true' if inits.get(n, 0) else 'false') if k == 'bool' else inits.get(n, 0)})" for n, k in state_locals)
     L.append("/-- the locals as the function initialises them -/\ndef start (c : Cnt) : St := { passes := c.p, failures := c.f, skips := c.s, exceptions := c.e" +
@@ -245,44 +378,33 @@ def generate():
     L.append(f"def flag (s : St) : Bool := s.{bools[0]}\ndef withFlag (s : St) (b : Bool) : St := {{ s with {bools[0]} := b }}\n")
     L.append("def code : Rec → Int\n" + "\n".join(f"  | .{r} => {enums[r]}" for r in RECS) + "\n")
     L.append("def fin (v : Int) : Option Finish :=\n  " + " else ".join(f"if v = {enums[c]} then some .{m}" for c, m in FIN.items()) + " else none\n")
-    # the decision of reporter_finish_test()
-    ft = next((n for n in top if n.get("kind") == "FunctionDecl" and n.get("name") == "reporter_finish_test" and any(c.get("kind") == "CompoundStmt" for c in n.get("inner", []) or [])), None)
+    # what reporter_finish_test() does with the reader's status
+    ft = funcs.get("reporter_finish_test")
     if ft is None: raise Unsupported("reporter_finish_test: no definition")
     fbody = next(c for c in ft["inner"] if c.get("kind") == "CompoundStmt")["inner"]
-    statusvar = None
-    for s in fbody:
-        if s.get("kind") == "DeclStmt":
-            for v in s["inner"]:
+    statusvar, flocals, rest = None, {}, []
+    for s_ in fbody:
+        if s_.get("kind") == "DeclStmt":
+            keep = False
+            for v in s_["inner"]:
                 init = strip(v["inner"][0]) if v.get("inner") else {}
                 if init.get("kind") == "CallExpr" and strip(init["inner"][0]).get("referencedDecl", {}).get("name") == "read_reporter_results":
-                    statusvar = v["name"]
+                    statusvar = v["name"]; continue
+                t = v["type"]["qualType"].replace("const ", "")
+                if t in ("bool", "_Bool"): flocals[v["name"]] = "bool"; keep = True
+                elif t in ("int", "unsigned int", "long"): flocals[v["name"]] = "int"; keep = True
+            if keep: rest.append(s_)
+        else:
+            rest.append(s_)
     if statusvar is None: raise Unsupported("reporter_finish_test: the status of read_reporter_results is not kept in a local")
-    cx2 = Ctx(enums, {}, {statusvar: "int", "message": "ptr"})
-    branches = []      # (condition text, what the branch does: 'skip' | 'exception' | 'other')
-    def classify(n):
-        txt = json.dumps(n)
-        if "show_incomplete" in txt or '"exceptions"' in txt: return "exception"
-        if "show_skip" in txt: return "skip"
-        return "other"
-    def walk_if(n):
-        if n.get("kind") != "IfStmt": return
-        c, kc = expr(cx2, n["inner"][0])
-        branches.append((as_bool(c, kc), classify(n["inner"][1])))
-        if n.get("hasElse"):
-            e = n["inner"][2]
-            if e.get("kind") == "IfStmt": walk_if(e)
-            elif e.get("kind") == "CompoundStmt" and len(e.get("inner", [])) == 1 and e["inner"][0].get("kind") == "IfStmt": walk_if(e["inner"][0])
-            else: branches.append(("true", classify(e)))
-    ifs = [s for s in fbody if s.get("kind") == "IfStmt"]
-    if len(ifs) != 1: raise Unsupported("reporter_finish_test: expected one if-chain on the status")
-    walk_if(ifs[0])
-    def chain(kind):
-        t = "false"
-        for c, what in reversed(branches):
-            t = f"(if {c} then {'true' if what == kind else 'false'} else {t})"
-        return t
-    L.append(f"/-- `reporter_finish_test`: the test is counted as an exception (and shown as incomplete) -/\ndef finishException ({statusvar} : Int) (message : Bool) : Bool := {chain('exception')}\n")
-    L.append(f"/-- `reporter_finish_test`: the test is shown as skipped -/\ndef finishSkipped ({statusvar} : Int) (message : Bool) : Bool := {chain('skip')}\n")
+    cx2 = Ctx(enums, flocals, {statusvar: "int", "message": "ptr"}, funcs)
+    cx2.st, cx2.calls = "FSt", True
+    cx2.subst[statusvar] = ("status", "int")
+    L.append("structure FSt where")
+    for c in COUNTERS: L.append(f"  {c} : Nat")
+    for n_, k_ in flocals.items(): L.append(f"  {n_} : {'Bool' if k_ == 'bool' else 'Int'} := {'false' if k_ == 'bool' else '0'}")
+    L.append("  skipShown : Bool := false\n  incompleteShown : Bool := false\n  deriving DecidableEq, Repr\n")
+    L.append(f"/-- `reporter_finish_test` after the reader has returned `status` (`message`: the platform layer passed one) -/\ndef finish (status : Int) (message : Bool) : FSt → FSt × Out :=\n  {seq(cx2, rest)}\n")
     return "\n".join(L)
 
 
